@@ -382,7 +382,7 @@ func genWalCmd(args []string) error {
 
 	nscen := 1
 	if thorough {
-		nscen = 8
+		nscen = 5
 	}
 	cid, didc := 0, 0
 	next := func() string { cid++; return fmt.Sprintf("c%d", cid) }
@@ -569,7 +569,7 @@ func genWalCmd(args []string) error {
 		// (b) every offset (thorough) or sampled offsets (quick) of the last segment's data,
 		//     plus a few in the zero tail and in earlier segments
 		_, endL := frameOffsets(final.files[li].data)
-		if thorough && s < 4 {
+		if thorough && s < 1 {
 			for off := 0; off < endL+16; off++ {
 				for _, v := range valuesFor(final.files[li].data[off%len(final.files[li].data)]) {
 					emitM(li, off, v, 0, 0)
@@ -578,7 +578,7 @@ func genWalCmd(args []string) error {
 		} else {
 			n := 60
 			if thorough {
-				n = 1500
+				n = 500
 			}
 			for t := 0; t < n; t++ {
 				off := r.intn(endL + 16)
